@@ -101,7 +101,13 @@ def build(variant):
         t0 = time.time()
         p = subprocess.run(cmd, cwd=HARNESS, env=cargo_env(v), stdout=subprocess.PIPE, stderr=subprocess.STDOUT, text=True)
         if p.returncode != 0:
-            tail = "\n".join(p.stdout.splitlines()[-40:])
+            lines = p.stdout.splitlines()
+            # the error blocks themselves (warnings can push them out of the tail)
+            errs = []
+            for i, l in enumerate(lines):
+                if l.startswith("error"):
+                    errs += lines[i : i + 12]
+            tail = "\n".join(errs[:120] + ["..."] + lines[-15:])
             raise HarnessError("build of variant %s failed:\n%s" % (variant, tail))
         out = os.path.join(tdir, v["target"], v["profile"], "vrun") if v.get("target") else os.path.join(tdir, v["profile"], "vrun")
         dst = os.path.join(BIN, "vrun-" + variant)
@@ -670,9 +676,13 @@ def check_c19(tier, seed, replay=None):
     pid = "C19"
     try:
         build("dbg")
+        # the assertion is compiled against the other feature sets of the crate as well
+        # (alloc-only, utf16, index-positions + prohibit-unsafe)
+        for v in ("nostd", "utf16", "idxsafe"):
+            build(v)
     except HarnessError as e:
         # The harness asserts Regex/Match/Error: Send + Sync at compile time.
-        if "Send" in str(e) or "Sync" in str(e):
+        if "Send" in str(e) or "Sync" in str(e) or "cannot be shared between threads" in str(e) or "cannot be sent between threads" in str(e):
             v = dict(property=pid, what="Regex, Match or Error is no longer Send + Sync (static assertion in the harness fails to compile)", case=dict(static_assertion="assert_send_sync"), observed=str(e)[-1500:], expected="auto traits hold")
             path = write_replay(pid, v)
             print("VIOLATION property=%s replay=%s" % (pid, path))
@@ -708,10 +718,10 @@ def check_c19(tier, seed, replay=None):
         except HarnessError as e:
             merged.notes.append("TSan stage unavailable: %s" % str(e)[:300])
             tools.append(dict(tool="ThreadSanitizer", unavailable=str(e)[:300]))
-    rule = ("static: the harness contains assert_send_sync::<Regex/Match/Error/Flags>() (a failing build is reported as a violation). Dynamic: 24 patterns (16 under Miri; incl. case-insensitive backreferences over characters whose code points agree in their low 8/16 bits, and patterns near the structural limits: 40-deep lookaheads / lookbehinds, 300 groups, 200 loops) x a multiset of queries (haystack, start, entry point, early iterator drop); the sequential specification is each query alone on a freshly compiled Regex; then (a) all queries in shuffled order on one Regex in one thread, (b) groups of 2, 4 and 16 threads sharing one Arc<Regex> plus per-thread clones, running shuffled overlapping subsets, including two live iterators advanced alternately, with the hook calling yield_now() every 1/3/7/50 engine steps; every result digest must equal the sequential one; (c) finally each query alone on a fresh Regex again (process-wide state)."
+    rule = ("static: the harness contains assert_send_sync::<Regex/Match/Error/Flags>() (a failing build is reported as a violation). Dynamic: 24 patterns (16 under Miri; incl. case-insensitive backreferences over characters whose code points agree in their low 8/16 bits, and patterns near the structural limits: 40-deep lookaheads / lookbehinds, 300 groups, 200 loops) x a multiset of queries (haystack, start, entry point, early iterator drop); the sequential specification is each query alone on a freshly compiled Regex; then (a) all queries in shuffled order on one Regex in one thread, (b) groups of 2, 4 and 16 threads sharing one Arc<Regex> plus per-thread clones, running shuffled overlapping subsets, including two live iterators advanced alternately, with the hook calling yield_now() every 1/3/7/50 engine steps; every result digest must equal the sequential one; (c) finally each query alone on a fresh Regex again (process-wide state); (d) find / find_iter / replace / replace_all / find_ascii on one text buffer rewritten in place, and clone_from into differently compiled Regexes; (e) every runner process begins with a cold-start battery: 8 threads behind a barrier make the process's very first searches (12 queries touching case folding, property tables, class strings), compared with the same queries made sequentially afterwards. The static assertion is compiled against the std, alloc-only, utf16 and index-positions+prohibit-unsafe builds."
             " The same workload (small) runs under Miri with several scheduler seeds and, in the thorough tier, under ThreadSanitizer. A case is one (pattern, query, thread group, thread); all are non-trivial.")
     extra = dict(tools=tools, concurrent_queries=merged.c("concurrent_queries"), thread_groups=group_counters(merged.counters, "thread_groups."), thread_runs_with_injected_yields=merged.c("thread_runs_with_injected_yields"), static_send_sync_assertions=True)
-    return finish(pid, tier, seed, merged, rule, ASSUME_COMMON + ["holds by construction today (no interior mutability in CompiledRegex); this is a tripwire for a cache or scratch buffer added to the shared program"], extra_cov=extra, required=["concurrent_queries", "thread_groups.16", "static_send_sync_assertions", "fresh_rechecks"], t0=t0)
+    return finish(pid, tier, seed, merged, rule, ASSUME_COMMON + ["holds by construction today (no interior mutability in CompiledRegex); this is a tripwire for a cache or scratch buffer added to the shared program"], extra_cov=extra, required=["concurrent_queries", "thread_groups.16", "static_send_sync_assertions", "fresh_rechecks", "cold_start_queries", "reused_buffer_queries", "clone_from_queries"], t0=t0)
 
 
 C15_VARIANTS = ["dbg", "idx", "safe", "idxsafe", "utf16", "nostd"]
@@ -951,18 +961,18 @@ CHECKS = {
         "c18",
         "every string s up to length 2 (quick) / 3 (thorough) over 41 characters (all 14 syntax characters, v-mode punctuators, letters with fold partners, multi-byte, line terminators) plus seeded random longer strings; escape(s) compiled under all 24 flag sets and searched in 5 haystacks with s (and case variants) planted. non-trivial iff s is non-empty and occurs.",
         ["second stage (nightly pattern build, counters c18pat.*): escape(s) as a std::str::pattern::Pattern -- match_indices / split / contains / find against the same occurrence oracle (without i)", "without i the oracle is naive substring search with the find_iter advance rule; with i character-wise comparison under uniref's canonical equivalence (legacy: std to_uppercase rule; u/v: simple case folding orbits)"],
-        required=["case_insensitive_cases", "case_related_single_character_strings", "c18pat.pattern_trait_cases"],
-        extra_stages=[("pattern", "c18pat")],
+        required=["case_insensitive_cases", "case_related_single_character_strings", "c18pat.pattern_trait_cases", "c18u16.utf16_cases"],
+        extra_stages=[("pattern", "c18pat"), ("utf16", "c18u16")],
         extra=lambda m: dict(strings=m.c("strings"), case_related_single_character_strings=m.c("case_related_single_character_strings"), pattern_trait_cases=m.c("c18pat.pattern_trait_cases"), exhaustive=True),
     ),
     "C13": simple_check(
         "C13",
         "c13",
         RULE_PROGRAMS + "haystacks are ASCII only, every byte offset is a start; non-trivial iff the UTF-8 entry point found at least one match.",
-        ["differential monitor between find_from_ascii and find_from", "second stage: the same monitor in the utf16 build, where literals are lowered to code point instructions instead of byte sequences (its counters are added to the first stage's)"],
+        ["differential monitor between find_from_ascii and find_from", "further stages: the same monitor in the utf16 build (literals are code point instructions instead of byte sequences) and in the index-positions + prohibit-unsafe build (checked accessors); their counters are added to the first stage's"],
         required=["pairs_with_nonascii_pattern"],
         extra=c13_extra,
-        extra_stages=[("utf16", "c13")],
+        extra_stages=[("utf16", "c13"), ("idxsafe", "c13")],
     ),
 }
 
